@@ -81,6 +81,14 @@ def check_triple(case):
     exp = np.array([(a + b - 1) / 2.0 / fs for a, b in ref])
     if ts.shape != exp.shape or not np.allclose(ts, exp, rtol=0, atol=1e-9):
         v.append(("tscale", "tscale %r != window centres %r" % (ts[:4], exp[:4])))
+    # the sampling rate as the number types callers hold it in (metadata floats, numpy scalars of small integer / single precision types)
+    for fsx in ((30000, 2500.0, np.int16(30000), np.uint16(40000), np.int32(30000), np.float32(30000), np.float64(29999.7)) if (ns + nswin + overlap) % 4 == 0 else ()):
+        with np.errstate(all="ignore"):
+            tsx = np.asarray(wg.tscale(fsx), dtype=np.float64)
+        expx = np.array([(a + b - 1) / 2.0 / float(fsx) for a, b in ref])
+        if tsx.shape != expx.shape or not np.allclose(tsx, expx, rtol=1e-6, atol=0):
+            v.append(("tscale:rate-type", "tscale(%s(%r)) = %r != window centres %r" % (type(fsx).__name__, fsx, tsx[:3], expx[:3])))
+            break
     # valid sub-windows: every sample exactly once (the generator documents "overlap must be even")
     if overlap % 2 == 0:
         cnt = np.zeros(ns, dtype=np.int32)
